@@ -183,7 +183,7 @@ def check(model, R, tier):
                     'one __train per epoch; train mode dominating the batch loop; eval mode + no_grad region without any update call for validation/test; history bookkeeping (one entry per epoch per key, val_ prefix, '
                     'mean of batch losses); exhaustive evaluator mode dispatch; definite assignment of names used after loops. User callbacks are opaque.',
         assumptions=['model / optimizer / criterion follow the package\'s own APIs (C07, C08, C12, C13 cover their behaviour)'],
-        technique='CFG dominance and region checks + call-site enumeration + definite-assignment dataflow')
+        technique='CFG dominance and region checks + call-site enumeration + definite-assignment dataflow + partial evaluation of the Evaluator')
 
 
 # ------------------------------------------------------------------------------------------------ Evaluator on evaluated paths
